@@ -132,6 +132,11 @@ def rfc_merge(b_authority, b_path, r_path):
 
 def rfc_resolve(base_text, ref_text):
     """5.2.2 (strict), base already parsed/normalised by the caller as 5.2.1 asks: text in, text out"""
+    return rfc_recompose(*rfc_resolve_c(base_text, ref_text))
+
+
+def rfc_resolve_c(base_text, ref_text):
+    """5.2.2: the five components of the target (5.3 recomposition not applied)"""
     bs, ba, bp, bq, _bf = rfc_parse(base_text)
     rs, ra, rp, rq, rf = rfc_parse(ref_text)
     if rs is not None:
@@ -151,7 +156,7 @@ def rfc_resolve(base_text, ref_text):
                 tq = rq
             ta = ba
         ts = bs
-    return rfc_recompose(ts, ta, tp, tq, rf)
+    return (ts, ta, tp, tq, rf)
 
 
 def split_authority(a):
@@ -236,6 +241,20 @@ def same_uri(got, want):
     return cg[:3] + (ng,) + cg[4:] == cw[:3] + (nw,) + cw[4:]
 
 
+def same_hostless(gd, want):
+    """a result WITHOUT a host (observed public components `gd`) against the components of the RFC target: scheme,
+    path, query, fragment (same identifications as `canon` / `same_uri`).  The text is not compared: how to_text()
+    writes an empty authority is property C06's business."""
+    ws, wa, wp, wq, wf = want
+    if gd['host'] or (wa or '') != '':
+        return False
+    gq, wq = gd['query'] or None, wq or None
+    if gq != wq and (wq is None or query_canonical(wq) or qnorm(gq or '') != qnorm(wq)):
+        return False
+    return ((gd['scheme'] or None) == (ws.lower() if ws is not None else None)
+            and pct_norm(gd['path']) == pct_norm(wp) and (gd['frag'] or None) == (wf or None))
+
+
 def own_pairs(q):
     """the (key, value-or-None) parameters of a query text, for feeding them to the public query_params API"""
     out = []
@@ -306,6 +325,11 @@ ODD_REFS = [
     {'scheme': 'http', 'path': 'g'},
     {'scheme': 'https', 'path': ''},
     {'scheme': 'urn', 'path': 'a/../b'},
+    {'scheme': 'mailto', 'path': 'me@x.example'},
+    {'scheme': 'g', 'path': 'h'},
+    {'scheme': 'tel', 'path': '+1-201-555-0123'},
+    {'scheme': 'file', 'auth': 1, 'path': '/etc/x'},
+    {'scheme': 'HTTP', 'path': '', 'query': 'k=1', 'frag': 'f'},
 ]
 
 _TOKEN_OK = re.compile(r"^[A-Za-z0-9._~;=:@,!$'()*+&-]*$")   # no '%', no delimiter, no space: quoting is C06's business
@@ -355,6 +379,24 @@ def in_model_domain(c):
     return True
 
 
+def outside_statement(r):
+    """a reference with a scheme but WITHOUT a host (`mailto:x`, `urn:a:b`, `g:h`, `https:`, `file:///p`): the statement
+    speaks about references without scheme and authority and about references with their own scheme AND host -
+    what navigate() does with this kind is left open by it (RFC 3986 5.2.2 would return the reference)"""
+    r = full(r)
+    return r['scheme'] is not None and not r['host']
+
+
+def statement_cut(case):
+    """index of the first step of the history whose reference is outside the statement (len(refs) if none): that
+    step and everything after it (those steps start from a base the statement does not determine) is compared
+    neither model-vs-implementation nor against the RFC"""
+    for i, r in enumerate(case['refs']):
+        if outside_statement(r):
+            return i
+    return len(case['refs'])
+
+
 def hx(s):
     return s.encode('utf-8').hex() if s else '-'
 
@@ -388,6 +430,8 @@ class C07(Property):
             'random bases and references. After every history the results are mutated through their public '
             'query_params (one marker parameter each) and the base / earlier results are observed again; every '
             'intermediate result is also observed before and after it serves as the base of the next step. '
+            'Then the hostless family: 6 bases without a host and with a rooted non-empty path (file:///a/b/c, foo:/a/b, '
+            '...) x every reference of <= 3 segments x 3 query forms + 2 chains, judged against the RFC by components. '
             'Second: the authority family (7 userinfo shapes incl. upper case x 3 hosts incl. mixed case and IPv6 x 3 '
             'ports x 2 schemes x 2 base paths x 7 reference kinds + one 3-step chain); third: normalize() alone on '
             'every base path of <= 4 segments over the small alphabet, rooted under a host and rooted / rootless '
@@ -405,9 +449,18 @@ class C07(Property):
         'parameters, not the query text; every other query is compared verbatim',
         'comparison identifies an empty path under an authority with "/", scheme/host case, and a present-but-empty '
         'query or fragment with an absent one (boltons URL cannot represent the latter difference)',
-        'the RFC-equality clause is judged for bases with a non-empty host and an empty or rooted path (and, for '
-        'references with an empty path, a dot-free base path); other bases are checked against the model and for '
-        'the dot-free / base-unmodified / idempotence clauses only',
+        'the RFC-equality clause is judged for bases with a non-empty host and an empty or rooted path, and (round 3c) '
+        'for bases without a host whose path is rooted and not empty (file:///a/b, foo:/a/b: compared component by '
+        'component, the text of an empty authority is property C06) - in both cases, for references with an empty '
+        'path, only when the base path is dot-free; other bases (rootless paths: urn:x/y, mailto:me; an empty '
+        'authority with an empty path: file://) are checked against the model and for the dot-free / base-unmodified / '
+        'idempotence clauses only',
+        'a reference that has a scheme but no host (mailto:x, urn:a:b, g:h, https:, file:///p) is outside the statement '
+        '(it speaks about references without scheme and authority and about references with their own scheme AND '
+        'host): such a step and every later step of the same history is compared neither with the model (token _ on '
+        'both sides) nor with the RFC, and may even raise; what the tree under test answers is recorded in the '
+        'histogram (ref_with_scheme_without_host ...). The base-unmodified / no-shared-state / dot-free clauses are '
+        'still checked on those steps',
     ]
     CORRESPONDENCE_NAME = 'C07.Driver (navigate / resolve_path_parts / normalize / to_text model) vs boltons.urlutils.URL'
 
@@ -434,7 +487,77 @@ class C07(Property):
                '/-- does `navigate` let a present-but-empty query of the reference (`?`, `?#s`) replace the base query? -/',
                'def navHonoursEmptyQuery : Bool := %s' % ('true' if self.nav_honours_empty_query() else 'false'),
                'end C07.Gen']
-        return {'C07_Schemes.lean': '\n'.join(src) + '\n', 'C07_Nav.lean': '\n'.join(nav) + '\n'}
+        navsrc, self._nav_tie = self.nav_source_tie()
+        return {'C07_Schemes.lean': '\n'.join(src) + '\n', 'C07_Nav.lean': '\n'.join(nav) + '\n',
+                'C07_NavSrc.lean': navsrc}
+
+    def nav_selftest_pairs(self):
+        """(base text, reference text) pairs on which the front-end's normal form of navigate is compared with the
+        real method (CPython against CPython) before it is translated"""
+        bases = [compose(b) for b in BASES + ODD_BASES + self.HOSTLESS_BASES]
+        refs = [compose(r) for r in ABS_REFS + ODD_REFS]
+        for path in sorted(set(self.exhaustive_refs(2, SEGS_SMALL))):
+            for q in QUERIES + ['k=1&k=2']:
+                refs.append(compose(compact({'path': path, 'query': q})))
+        refs += ['#s', '?#s', '//h/p', '//h:99', '//u@[::3]/p/..']
+        return [(b, r) for b in bases for r in refs]
+
+    def nav_source_tie(self):
+        """SOURCE TIE of URL.navigate's decision logic: the method's normal form (bv/props/c07_navform.py), validated
+        against the real method, translated by harness/py2lean.py -> (text of Generated/C07_NavSrc.lean, info).
+        When the current source is outside the front-end's subset (or the normal form fails its self-test, or leaves
+        the translator's subset) the normal form of the reference version is translated instead and `tied := false`:
+        the theorems src_navigate_* then say nothing about the current source (recorded in the evidence)."""
+        import os
+        import sys
+        hdir = os.path.dirname(os.path.dirname(os.path.dirname(os.path.abspath(__file__))))
+        if hdir not in sys.path:
+            sys.path.insert(0, hdir)
+        import py2lean
+        from bv.props import c07_navform as nf
+        from boltons import urlutils
+        info = {'function': 'boltons.urlutils.URL.navigate', 'normal_form_by': 'harness/bv/props/c07_navform.py',
+                'lean_def': 'C07.NavSrc.navigate_core',
+                'tie_theorems': ['C07.src_navigate_core_eq_model', 'C07.src_navigate_eq_model',
+                                 'C07.src_navigate_replacing', 'C07.src_navigate_eq_rfc']}
+        path = urlutils.__file__
+        if path.endswith('.pyc'):
+            path = path[:-1]
+        tied, reason = True, ''
+        try:
+            form = nf.normal_form(open(path).read())
+        except nf.Refuse as e:
+            tied, reason, form = False, 'front-end: %s' % e, nf.CANON
+        except Exception as e:       # noqa: BLE001  (a source that does not even parse: the import would have failed)
+            tied, reason, form = False, 'front-end: %s' % exc_name(e), nf.CANON
+        if tied:
+            try:
+                with time_limit(30):
+                    n, bad = nf.selftest(form, urlutils.URL, self.nav_selftest_pairs())
+            except Exception as e:       # noqa: BLE001
+                n, bad = 0, 'self-test raised %s' % exc_name(e)
+            info['normal_form_selftest_pairs'] = n
+            if bad:
+                tied, reason, form = False, 'normal form disagrees with the method: %s' % bad[:300], nf.CANON
+        text, infos = py2lean.translate_source(form, [nf.SPEC], 'boltons.urlutils', 'boltons/urlutils.py')
+        if 'error' in infos[0] and tied:
+            tied, reason = False, 'py2lean: %s' % infos[0]['error']
+            text, infos = py2lean.translate_source(nf.CANON, [nf.SPEC], 'boltons.urlutils', 'boltons/urlutils.py')
+        if 'error' in infos[0]:
+            raise ValueError('the reference normal form of URL.navigate is not translated: %s' % infos[0]['error'])
+        info['tied'] = tied
+        if not tied:
+            info['not_applied_because'] = reason
+        text = text.replace('/- GENERATED by harness/py2lean.py from boltons/urlutils.py - do not edit.',
+                            '/- GENERATED by harness/bv/props/c07.py (regen): harness/py2lean.py applied to the NORMAL FORM of\n'
+                            '   boltons.urlutils.URL.navigate (harness/bv/props/c07_navform.py) - do not edit.\n'
+                            '   ' + ('normal form of the CURRENT source (validated against the method in CPython)' if tied else
+                                     'the current source is outside the front-end subset: normal form of the REFERENCE version'))
+        text = text.replace('-> Src.urlutils.navigate_core', '-> C07.NavSrc.navigate_core')
+        text = text.replace('namespace Src.urlutils', 'namespace C07.NavSrc')
+        text = text.replace('end Src.urlutils', '/-- is `navigate_core` the normal form of the source under test? -/\n'
+                            'def tied : Bool := %s\n\nend C07.NavSrc' % ('true' if tied else 'false'))
+        return text, info
 
     @staticmethod
     def nav_honours_empty_query():
@@ -473,6 +596,10 @@ class C07(Property):
         if problems:
             raise InfraError('py2lean_prepass self-test: ' + '; '.join(problems[:3]))
         self.stats['prepass_selftest_comparisons'] = n_pp
+        # the source tie of navigate's decision logic: applied to this source or not, and why
+        if getattr(self, '_nav_tie', None) is None:
+            self._nav_tie = self.nav_source_tie()[1]
+        self.stats['navigate_source_tie'] = self._nav_tie
         # reference TEXTS: the Lean Appendix-B parser (Spec.rfcParse) against the oracle's regex, and the model's
         # `URL(text)` (Model.refOfText / URL.ofText) against the real URL(text), on every small reference text
         # and a list of texts with repeated / misplaced delimiters
@@ -618,6 +745,27 @@ class C07(Property):
                             yield {'base': b, 'refs': [{'path': 'x/'}, {'path': '../Y'}, {'frag': 'Z'}], 'as_url': 0,
                                    'lazy': 1}
 
+    HOSTLESS_BASES = [
+        {'scheme': 'file', 'auth': 1, 'path': '/a/b/c', 'query': 'q=1'},
+        {'scheme': 'foo', 'path': '/a/b', 'frag': 'f'},
+        {'scheme': 'x-y.z', 'path': '/a//b/'},
+        {'scheme': 'urn', 'path': '/x'},
+        {'scheme': 'unk', 'auth': 1, 'path': '/'},
+        {'scheme': 'file', 'auth': 1, 'path': '/a/./b/../c'},
+    ]
+
+    def hostless_family(self):
+        """bases without a host whose path is rooted and not empty (`file:///a/b/c`, `foo:/a/b`): every reference of
+        <= 3 segments x 3 query forms, and two chains"""
+        paths = sorted(set(self.exhaustive_refs(3, SEGS_SMALL)))
+        for b in self.HOSTLESS_BASES:
+            for path in paths:
+                for q in QUERIES:
+                    yield {'base': b, 'refs': [compact({'path': path, 'query': q})], 'as_url': 0}
+            yield {'base': b, 'refs': [{'path': '../x/./y', 'query': 'k=1&k'}, {'query': ''}, {'frag': 'top'},
+                                       {'path': '..//z'}, {'path': '../../../..'}], 'as_url': 0}
+            yield {'base': b, 'refs': [{'path': 'g/'}, {'path': '.'}, {'path': '/r', 'frag': 's'}, {}], 'as_url': 1}
+
     def normalize_family(self):
         """normalize() on its own (no navigation): every path of <= 4 segments over {., .., empty, a, b;p}, rooted
         under a host, rooted and rootless without one, mixed-case scheme / host"""
@@ -636,6 +784,8 @@ class C07(Property):
         for c in self.query_family():
             yield c
         for c in self.authority_family():
+            yield c
+        for c in self.hostless_family():
             yield c
         for c in self.small_families():
             yield c
@@ -698,6 +848,9 @@ class C07(Property):
             for path in paths:
                 for q in (None, 'y=1'):
                     yield {'base': b, 'refs': [compact({'path': path, 'query': q})], 'as_url': 0}
+        for b in self.HOSTLESS_BASES:
+            for path in sorted(set(self.exhaustive_refs(3, SEGS_SMALL))):
+                yield {'base': b, 'refs': [compact({'path': path})], 'as_url': 0}
         for c in self.adversarial(rng, 2000):
             yield c
         while True:
@@ -807,10 +960,13 @@ class C07(Property):
 
     # ------------------------------------------------------------------ model line
     def line(self, case):
-        if not in_model_domain(case['base']) or not all(in_model_domain(r) for r in case['refs']):
+        if not in_model_domain(case['base']) or not all(in_model_domain(r) for r in case['refs'][:statement_cut(case)]):
             return None
         api = ',A' if case.get('as_url') == 2 else ''
-        return ' '.join(['nav', enc_components(case['base'])] + [enc_components(r) + api for r in case['refs']])
+        cut = statement_cut(case)
+        # steps from the first out-of-statement reference on: token `_` on both sides (see `statement_cut`)
+        return ' '.join(['nav', enc_components(case['base'])] + [enc_components(r) + api for r in case['refs'][:cut]]
+                        + ['_'] * (len(case['refs']) - cut))
 
     # ------------------------------------------------------------------ implementation
     @staticmethod
@@ -914,7 +1070,9 @@ class C07(Property):
                                    d['query'], d['frag']])
         if 'exc' in obs:
             return 'X' + obs['exc']
-        toks = [t(obs['base_after'])] + [t(s) for s in obs['steps']] + ['N'] + [t(s) for s in obs['norm']]
+        cut = statement_cut(case)
+        toks = [t(obs['base_after'])] + [t(s) for s in obs['steps'][:cut]] + ['_'] * (len(case['refs']) - cut) + \
+            ['N'] + [t(s) for s in obs['norm']]
         return ' '.join(toks)
 
     # ------------------------------------------------------------------ oracle (independent of the model)
@@ -924,8 +1082,16 @@ class C07(Property):
         returns 'rel' / 'abs' / None"""
         rs, ra, rp, rq, rfr = rfc_parse(ref_text)
         s, a, p, q, f = rfc_parse(cur_text)
-        if s is None or a is None:
+        if s is None:
             return None
+        if a is None or a == '':
+            # a base without a host (`file:///a/b`, `foo:/a/b`): judged when its path is rooted and not empty (then
+            # RFC 5.2.3 does not look at the authority; theorem navigateWith_eq_rfc_hostless) - components, not texts
+            if not p.startswith('/') or p.startswith('//') and a is None:
+                return None
+            if rs is not None or ra is not None or (rp == '' and dot_segments(p)):
+                return None
+            return 'rel_hostless'
         ui, host, port = split_authority(a)
         if not host:
             return None
@@ -974,7 +1140,15 @@ class C07(Property):
         cur = base_text
         judged = 0
         synced = True
+        cut = statement_cut(case)
         for i, r in enumerate(case['refs']):
+            if i >= cut:
+                # a reference with a scheme but without a host, or a step after one: the statement demands nothing
+                # of this call (not even that it returns); how the tree under test answers is recorded only
+                if i == cut and synced:
+                    self.note_outside_statement(cur, compose(r), obs['steps'][i] if i < len(obs['steps']) else None)
+                if i >= len(obs['steps']) or 'exc' in obs['steps'][i]:
+                    break
             if i >= len(obs['steps']):
                 return Failure('missing', 'no observation for step %d' % i)
             gd = obs['steps'][i]
@@ -1007,6 +1181,19 @@ class C07(Property):
                     return f
                 judged += 1
                 cur = want
+            elif kind == 'rel_hostless':
+                want_c = rfc_resolve_c(cur, rt)
+                want = rfc_recompose(*want_c)
+                if not same_hostless(gd, want_c):
+                    f = Failure('rfc_mismatch', 'step %d: %r navigate %r -> scheme %r, host %r, path %r, query %r, '
+                                'fragment %r; RFC 3986 5.2 target %r' % (i, cur, rt, gd['scheme'], gd['host'], gd['path'],
+                                                                         gd['query'], gd['frag'], want))
+                    f.step, f.cur, f.ref, f.got, f.want = i, cur, rt, got, want
+                    return f
+                judged += 1
+                cur = want
+                if want_c[1] is None and want_c[2].startswith('//'):
+                    synced = False      # the recomposed target text would read its path as an authority (RFC 3986 3.3)
             elif kind == 'abs':
                 # replaces the base entirely: the reference itself, dot segments removed or not
                 want = rfc_resolve(cur, rt)
@@ -1030,6 +1217,34 @@ class C07(Property):
             (full(r)['path'] == '' or any(s in ('.', '..', '') for s in full(r)['path'].split('/')[:-1])
              or full(r)['path'].split('/')[-1] in ('.', '..')) for r in case['refs'])
         return None
+
+    def note_outside_statement(self, cur, rt, gd):
+        """informational (evidence histogram): what the tree under test does with a reference that has a scheme but no
+        host - RFC 3986 5.2.2 returns the reference itself (dot segments removed); boltons HEAD merges its path into
+        the base path and keeps the base authority"""
+        st = self.stats
+        try:
+            if gd is None or 'exc' in gd:
+                kind = 'raises'
+            elif same_uri(gd['text'], rfc_resolve(cur, rt)) or same_uri(gd['text'], rt):
+                kind = 'the reference itself is returned (the RFC 3986 5.2.2 target)'
+            else:
+                rp = rfc_parse(rt)
+                tgt = rfc_parse(rfc_resolve(cur, rfc_recompose(None, *rp[1:])))
+                if same_uri(gd['text'], rfc_recompose(rp[0], *tgt[1:])):
+                    kind = 'resolved like the same reference without its scheme, then the scheme replaced (base authority kept)'
+                else:
+                    kind = 'something else'
+        except Exception:       # noqa: BLE001  (informational only)
+            kind = 'unclassified'
+        key = 'ref_with_scheme_without_host (outside the statement, not compared): ' + kind
+        st[key] = st.get(key, 0) + 1
+        ex = st.setdefault('ref_with_scheme_without_host_examples', [])
+        shown = '%s + %s -> %s' % (cur, rt, 'raises ' + gd['exc'] if gd and 'exc' in gd else gd and gd['text'])
+        seen = self.__dict__.setdefault('_outside_seen', set())
+        if len(ex) < 12 and rt not in seen:
+            seen.add(rt)
+            ex.append(shown)
 
     def count_shape(self, ref_text):
         st = self.stats
